@@ -15,12 +15,14 @@ import (
 	"net/netip"
 	"net/url"
 	"os"
+	"runtime"
 	"sort"
 	"strconv"
 	"strings"
 	"testing"
 	"testing/synctest"
 	"time"
+	"unicode"
 
 	"github.com/AdguardTeam/AdGuardHome/internal/aghnet"
 	"github.com/AdguardTeam/AdGuardHome/internal/filtering"
@@ -43,18 +45,20 @@ import (
 //
 //	C07.reset full memSize fileEnabled enabled ivlMs nRules rule* nHosts host* nClients {id name ignore}*   => m c r
 //	C07.add id dt qname cid ip ipAnon reason isFiltered variant   => rt m c r
+//	C07.addthen <add fields> clear|shutdown|restart m f e         => rt m c r   (the op overtakes the flush goroutine of Add)
 //	C07.shutdown | C07.rotate | C07.clear                      => m c r
 //	C07.rotcheck dt                                            => m c r
 //	C07.restart memSize fileEnabled enabled                    => m c r
 //	C07.putconf enabled anonymize ivlMs nRules rule* nHosts host* => code m c r
 //	C07.clients n {id name ignore}*                            => m c r
-//	C07.search scan olderKind olderVal limit offset search asciiRet asciiErr status   => code items oldest
+//	C07.search scan olderKind olderVal limit offset search lowered asciiRet asciiErr status   => code items oldest
 //
 // m c r: ids in the memory buffer / querylog.json / querylog.json.1, oldest
 // first ("-" empty; "#n" counts only when full=0).  nHosts host*: the hosts of
 // the block's pool for which the ignore engine built from the rules answers
-// true (library oracle).  asciiRet/asciiErr: idna.ToASCII(strings.ToLower(term))
-// (library oracle).  ipAnon: the text of the client address with the last 2
+// true (library oracle).  lowered: strings.ToLower(unquoted term);
+// asciiRet/asciiErr: idna.ToASCII(lowered) (library oracles computed by the
+// generator, independently of parseSearchCriterion).  ipAnon: the text of the client address with the last 2
 // (IPv4) / 10 (IPv6) bytes zeroed, computed by the generator.  items:
 // "id@client" newest first (client = hex of the reported "client"), "id!@client"
 // when the rest of the returned JSON differs from what was recorded.
@@ -402,7 +406,12 @@ func (c *c07Ctx) add(f []string) []string {
 		enabled = l.conf.Enabled
 	}()
 
-	l.Add(c07Params(qname, cid, ipText, reason, isF, variant))
+	params := c07Params(qname, cid, ipText, reason, isF, variant)
+	if f[0] == "C07.addthen" {
+		c.addThen(params, f[10:])
+	} else {
+		l.Add(params)
+	}
 	// Let the flush goroutine, if any, finish.
 	synctest.Wait()
 
@@ -422,6 +431,48 @@ func (c *c07Ctx) add(f []string) []string {
 	}
 
 	return append([]string{vutil.B(rt)}, c.dump()...)
+}
+
+// addThen performs Add and then a clear / shutdown / restart BEFORE the flush
+// goroutine that Add may have started gets to run: with a single P the new
+// goroutine cannot start until this one yields, and between the go statement
+// in Add and the lock taken by the following operation nothing yields.  (On
+// the unchanged tree both orders end in the same state, so the observation
+// does not depend on the scheduler; a change that makes the order matter is
+// what this operation is there to expose.)
+func (c *c07Ctx) addThen(params *AddParams, thn []string) {
+	l := c.l
+	ctx := context.Background()
+	w := httptest.NewRecorder()
+	r := httptest.NewRequest(http.MethodPost, "/control/querylog_clear", nil)
+	var ivl time.Duration
+	var eng *aghnet.IgnoreEngine
+	var anon bool
+	func() {
+		l.confMu.RLock()
+		defer l.confMu.RUnlock()
+		ivl, eng, anon = l.conf.RotationIvl, l.conf.Ignored, l.conf.AnonymizeClientIP
+	}()
+	// Nothing is pending here; start a fresh time slice on a single P.
+	synctest.Wait()
+	defer runtime.GOMAXPROCS(runtime.GOMAXPROCS(1))
+	runtime.Gosched()
+
+	l.Add(params)
+	switch thn[0] {
+	case "clear":
+		l.handleQueryLogClear(w, r)
+	case "shutdown":
+		_ = l.Shutdown(ctx)
+	case "restart":
+		_ = l.Shutdown(ctx)
+		// the old instance's goroutine, if any, runs now
+		synctest.Wait()
+		c.rules = eng.Values()
+		c.newLog(uint(vutil.Atoi(thn[1])), vutil.UnB(thn[2]), vutil.UnB(thn[3]), anon, ivl)
+	default:
+		panic("bad addthen kind " + thn[0])
+	}
 }
 
 // entryOK checks one entry of the API answer against what was recorded.
@@ -493,7 +544,7 @@ func (c *c07Ctx) search(f []string) []string {
 			q.Set(name, v)
 		}
 	}
-	if v := vutil.Unhex(f[9]); v != "" {
+	if v := vutil.Unhex(f[10]); v != "" {
 		q.Set("response_status", v)
 	}
 	l := c.l
@@ -631,7 +682,7 @@ func c07Run(f []string) []string {
 	}
 	l := c.l
 	switch op {
-	case "C07.add":
+	case "C07.add", "C07.addthen":
 		return c.add(f)
 	case "C07.shutdown":
 		_ = l.Shutdown(ctx)
@@ -700,6 +751,9 @@ var c07HostPool = []string{
 	"example.org", "test.example.org", "ads.tracker.net", "a&b.example.org", "x\"y.example", "back\\slash.net",
 	"<tag>.io", "kitchen.local", "sync.example", "xn--e1afmkfd.xn--p1ai", "EXAMPLE.com", ".", "Sky.Kite.Example",
 	"k.s", "printer.local", "www.example.org", "xn--mnchen-3ya.de", "tab\there.net", "a.b.c.d.e", "kk.kkk",
+	// IDN names are recorded in their ASCII form: пример.рф, www.пример.рф, сайт.рф, bücher.example, shop.münchen.de
+	"xn--e1afmkfd.xn--p1ai", "www.xn--e1afmkfd.xn--p1ai", "xn--80aswg.xn--p1ai", "xn--bcher-kva.example",
+	"shop.xn--mnchen-3ya.de",
 }
 
 var c07CIDPool = []string{"", "", "", "laptop", "kids-phone", "my-kitchen", "we&ird", "Sam-K", "dash\\id"}
@@ -895,9 +949,66 @@ var c07BadTimes = []string{"yesterday", "2000-01-01", "2000-01-01T00:00:00", "94
 
 var c07ZeroTimes = []string{"0001-01-01T00:00:00Z", "0001-01-01T00:00:00.000000000Z", "0001-01-01T01:00:00+01:00"}
 
-var c07Terms = []string{"kit", "K", "s", ".", "a&b", "x\"y", "\\", "\"", "\"\"", "пример", "\"пример.рф\"", "München", "münchen.de",
+var c07Terms = []string{"Пример.рф", "ПРИМЕР", "\"Пример.РФ\"", "ПРИМЕР.РФ", "MÜNCHEN", "Bücher", "САЙТ", "XN--E1AFMKFD.xn--p1ai", "прим", "kit", "K", "s", ".", "a&b", "x\"y", "\\", "\"", "\"\"", "пример", "\"пример.рф\"", "München", "münchen.de",
 	"xn--", "example", "\"example.org\"", "\"EXAMPLE.ORG\"", "192.168.1.5", "\"192.168.1.5\"", "168.1", "2001:DB8", "sam", "KITCHEN",
 	"<tag>", "nomatch-zzz", "\"kids-phone\"", "phone", "\t", "k.s", "kk", "kkkk", " ", "sky"}
+
+// c07CaseRunes changes the letter case of the term the way a user may type it.
+func c07CaseRunes(r *rand.Rand, s string) string {
+	switch r.IntN(4) {
+	case 0:
+		return s
+	case 1:
+		return strings.ToUpper(s)
+	case 2:
+		rs := []rune(s)
+		rs[0] = unicode.ToUpper(rs[0])
+
+		return string(rs)
+	default:
+		rs := []rune(s)
+		for i := range rs {
+			if r.IntN(2) == 0 {
+				rs[i] = unicode.ToUpper(rs[i])
+			}
+		}
+
+		return string(rs)
+	}
+}
+
+// idnTerm is a search term for an internationalised name recorded as host (its
+// ASCII form): whole labels of the Unicode form or of the ASCII form in any
+// letter case, as a substring or quoted; sometimes a part of a label (which
+// the label-wise punycode conversion cannot find).
+func (g *c07Gen) idnTerm(host string) string {
+	r := g.r
+	uni, err := idna.ToUnicode(host)
+	if err != nil || uni == host {
+		return c07CaseRunes(r, host)
+	}
+	labels := strings.Split(uni, ".")
+	if r.IntN(5) == 0 {
+		labels = strings.Split(host, ".")
+	}
+	a := r.IntN(len(labels))
+	b := a + 1 + r.IntN(len(labels)-a)
+	if r.IntN(3) == 0 {
+		a, b = 0, len(labels)
+	}
+	t := strings.Join(labels[a:b], ".")
+	if r.IntN(10) == 0 {
+		rs := []rune(t)
+		i := r.IntN(len(rs))
+		t = string(rs[i : i+1+r.IntN(len(rs)-i)])
+	}
+	t = c07CaseRunes(r, t)
+	if r.IntN(3) == 0 {
+		return "\"" + t + "\""
+	}
+
+	return t
+}
 
 func (g *c07Gen) term() string {
 	r := g.r
@@ -905,6 +1016,9 @@ func (g *c07Gen) term() string {
 		return vutil.Pick(r, c07Terms)
 	}
 	e := vutil.Pick(r, g.added)
+	if strings.Contains(e.host, "xn--") && r.IntN(5) < 3 {
+		return g.idnTerm(e.host)
+	}
 	var field string
 	switch r.IntN(5) {
 	case 0, 1:
@@ -1020,9 +1134,10 @@ func (g *c07Gen) emitSearch(scan int, okind, oval, limit, offset, term, status s
 	if len(v) >= 2 && v[0] == '"' && v[len(v)-1] == '"' {
 		v = v[1 : len(v)-1]
 	}
-	ascii, err := idna.ToASCII(strings.ToLower(v))
+	lowered := strings.ToLower(v)
+	ascii, err := idna.ToASCII(lowered)
 	g.emit("C07.search", strconv.Itoa(scan), okind, oval, vutil.Hex(limit), vutil.Hex(offset), vutil.Hex(term),
-		vutil.Hex(ascii), vutil.B(err != nil), vutil.Hex(status))
+		vutil.Hex(lowered), vutil.Hex(ascii), vutil.B(err != nil), vutil.Hex(status))
 }
 
 // pageChain pages through the log with the returned cursor.
@@ -1116,6 +1231,8 @@ func (g *c07Gen) block() {
 			g.pageChain()
 		case k < 92:
 			g.anonScenario()
+		case k < 94:
+			g.flushRace()
 		default:
 			g.search(vutil.Pick(r, []string{"", "any", "any", "cursor"}))
 		}
@@ -1131,6 +1248,70 @@ func (g *c07Gen) block() {
 	if r.IntN(2) == 0 {
 		g.anonScenario()
 	}
+	if r.IntN(3) == 0 {
+		g.flushRace()
+	}
+}
+
+// addFields are the input fields of one record (without the op name).
+func (g *c07Gen) addFields() []string {
+	r := g.r
+	g.nextID++
+	dt := 1 + r.Int64N(5_000_000)
+	g.clock += dt
+	host := vutil.Pick(r, g.hosts)
+	qn := g.qname(host)
+	cid := vutil.Pick(r, g.cids)
+	ip := vutil.Pick(r, g.ips)
+	reason := r.IntN(12)
+	g.added = append(g.added, c07Shadow{id: g.nextID, ts: g.clock, host: c07Norm(qn), cid: cid, ip: ip})
+
+	return []string{strconv.Itoa(g.nextID), strconv.FormatInt(dt, 10), vutil.Hex(qn), vutil.Hex(cid), vutil.Hex(ip),
+		vutil.Hex(c07Anon(ip)), strconv.Itoa(reason), vutil.B(reason >= 3 && reason <= 8), strconv.Itoa(r.IntN(1 << 22))}
+}
+
+// flushRace fills the buffer through Add so that Add itself starts the flush
+// goroutine, lets a clear / shutdown / restart overtake that goroutine (or,
+// half of the time, run after it), then records more than MemSize further
+// entries and reads everything back: nothing recorded after the race may be
+// lost.
+func (g *c07Gen) flushRace() {
+	r := g.r
+	if c07 == nil || c07.l == nil {
+		return
+	}
+	// bring the buffer to one record below the flush threshold
+	for i := 0; i < 14; i++ {
+		if !g.fileOn || !g.enabled || int(c07.l.buffer.Len())+1 >= g.memSize {
+			break
+		}
+		g.emit(append([]string{"C07.add"}, g.addFields()...)...)
+	}
+	var thn []string
+	switch r.IntN(4) {
+	case 0, 1:
+		thn = []string{"clear"}
+	case 2:
+		thn = []string{"shutdown"}
+	default:
+		thn = []string{"restart", strconv.Itoa(g.memSize), vutil.B(g.fileOn), vutil.B(g.enabled)}
+	}
+	if r.IntN(4) == 0 {
+		// the other order: the goroutine first
+		g.emit(append([]string{"C07.add"}, g.addFields()...)...)
+		g.emit(append([]string{"C07." + thn[0]}, thn[1:]...)...)
+	} else {
+		g.emit(append(append([]string{"C07.addthen"}, g.addFields()...), thn...)...)
+	}
+	n := g.memSize + 1 + r.IntN(4)
+	if n > 16 {
+		n = 4 + r.IntN(4)
+	}
+	for i := 0; i < n; i++ {
+		g.emit(append([]string{"C07.add"}, g.addFields()...)...)
+	}
+	g.emitSearch(0, "none", "-", "200", "", "", "")
+	g.pageChain()
 }
 
 // putconf emits a PUT of the configuration and tracks what is in force.
